@@ -81,7 +81,9 @@ def case(job):
     if rgb:
         data = np.stack([idx % 251, idx // 251, np.full_like(idx, 7)], axis=-1).astype(np.uint8)
     else:
-        data = idx.astype(np.float64)
+        # maps in native and in big-endian byte order (what the FITS loader hands out), several widths
+        data = idx.astype([np.float64, ">f8", ">f4", ">i4", np.int32, ">i2"][(ny * 3 + nx) % 6] if ny * nx < 30000 else np.float64)
+    pristine = data.copy()
     lon, lat, accept = build_points(variant, ny, nx)
     galactic = variant == "plate_carree_galactic_sampler"
     if galactic:
@@ -99,6 +101,9 @@ def case(job):
         sampler = getattr(samplers, variant)(data)
         # a second sampler over a different map stays alive and is called in between (no shared state)
         other = getattr(samplers, variant)(np.zeros((ny + 1, nx + 2) + data.shape[2:], dtype=data.dtype))
+        # ... and further samplers built from the SAME map array: they answer every other request, and the
+        # caller's map must come out of all this unchanged
+        again = [sampler, getattr(samplers, variant)(data), getattr(samplers, variant)(data)]
     except Exception as e:
         bad("constructor-raises:%s" % type(e).__name__, repr(e))
         return part
@@ -117,10 +122,20 @@ def case(job):
             sel = np.arange(start, start + n_req) % npts
             qlon = (lon[sel] + sh * TWOPI).reshape(req)
             qlat = lat[sel].reshape(req)
+            # memory layout of the request: C order, Fortran order, a transposed view, or the two arrays laid out
+            # differently (the answer is defined element by element, whatever the strides)
+            lay = (start // n_req + sh) % 4 if len(req) == 2 and req[0] > 1 and req[1] > 1 else 0
+            if lay == 1:
+                qlon, qlat = np.asfortranarray(qlon), np.asfortranarray(qlat)
+            elif lay == 2:
+                qlon, qlat = np.ascontiguousarray(qlon.T).T, np.ascontiguousarray(qlat.T).T
+            elif lay == 3:
+                qlon = np.asfortranarray(qlon)
+            use = again[(start // n_req) % 3]
             part.case(nontrivial=(ny == 1 or nx == 1 or ny % 2 == 1 or nx % 2 == 1 or sh != 0), n=min(n_req, npts - start))
             try:
                 other(qlon.reshape(-1)[:1], qlat.reshape(-1)[:1])
-                out = np.asarray(sampler(qlon, qlat))
+                out = np.asarray(use(qlon, qlat))
             except Exception as e:
                 bad("raises:%s" % type(e).__name__, repr(e), {"lon_shift_turns": sh})
                 break
@@ -169,6 +184,8 @@ def case(job):
             if wrong:
                 bad("wrong-cell/second-request-same-endpoints", "a request with the same shape and end points as the previous one but different interior points got %d wrong cells" % len(wrong))
                 break
+    if not (data.dtype == pristine.dtype and np.array_equal(data, pristine)):
+        bad("map-array-modified", "building or calling samplers changed the caller's map array (dtype %s -> %s, %d values differ)" % (pristine.dtype, data.dtype, int((np.asarray(data, dtype=np.float64) != np.asarray(pristine, dtype=np.float64)).sum())))
     part.sample(cfg)
     return part
 
@@ -180,7 +197,7 @@ def run(tier, seed):
         "5 sampler variants x map shapes (ny, nx) in %r squared (plus axis lengths 127..129, 255..257 - thorough also 32767..32769, 65535, 65536 - against a short other axis) x {scalar, RGB} x request shapes "
         "(1-D and 2-D, up to 300x300 and 70001 points, i.e. larger than and not a multiple of one tile); per cell 6 interior and 8 boundary points, "
         "each at longitude shifts of %r turns (Galactic: interior points only, after an astropy Galactic->ICRS conversion); "
-        "evaluations = points sampled; non-trivial = 1-pixel or odd axis, or shifted longitude" % (sizes, SHIFTS)
+        "maps in native and big-endian byte order, three samplers built from one map array answering in turn, requests in C / Fortran / transposed / mixed memory layout; evaluations = points sampled; non-trivial = 1-pixel or odd axis, or shifted longitude" % (sizes, SHIFTS)
     )
     rep.assumptions = ["plate_carree_ecliptic_sampler has no documented layout in the statement and is not covered", "boundary points may resolve to any adjacent cell"]
     jobs = []
